@@ -169,11 +169,10 @@ def quantifier_rule(ctx, out, qname, kind, coll, callee, forwarded):
     if not qs:
         anyloop = [lp for lp in pat.loops(fn) if isinstance(lp.iter, ast.Attribute) and lp.iter.attr == coll
                    and pat.is_name(lp.iter.value, selfn)]
-        if anyloop:
-            out.undecided(qname, f"loop over self.{coll} is not a recognised quantifier idiom", where=fn.where(anyloop[0].node))
-        else:
-            out.bad(qname, f"no quantifier over self.{coll} (the result must be '{kind}' over every sub-object)",
-                    where=fn.where())
+        # no recognised quantifier spelling (a helper, a reduce, ...): the fact itself -- the answer is all(...) /
+        # any(...) of the sub-objects' answers with the arguments forwarded -- is decided by the abstract run R02.3b
+        out.ok(qname, f"no syntactic quantifier over self.{coll}; decided by the exhaustive abstract run (R02.3b)",
+               where=fn.where(), nontrivial=False)
         return
     if len(qs) > 1:
         out.undecided(qname, f"{len(qs)} quantifier loops over self.{coll}", where=fn.where())
